@@ -17,6 +17,19 @@ use crate::{
     },
 };
 
+/// The parser drops one `.wxml` / `.wxs` suffix from a source path. A path that still ends with
+/// that suffix is printed with the suffix written once more, so that it reads back as the same path.
+fn src_with_suffix_kept(src: &StrName, suffix: &str) -> StrName {
+    if src.name.ends_with(suffix) {
+        StrName {
+            name: format!("{}{}", src.name, suffix).into(),
+            location: src.location.clone(),
+        }
+    } else {
+        src.clone()
+    }
+}
+
 impl Stringify for Template {
     fn stringify_write<'s, W: FmtWrite>(&self, stringifier: &mut Stringifier<'s, W>) -> FmtResult {
         let globals = &self.globals;
@@ -25,7 +38,7 @@ impl Stringify for Template {
             stringifier.write_str(r#"import "#)?;
             stringifier.write_token("src", None, &i.src_location)?;
             stringifier.write_str(r#"="#)?;
-            stringifier.write_str_name_quoted(&i.src)?;
+            stringifier.write_str_name_quoted(&src_with_suffix_kept(&i.src, ".wxml"))?;
             stringifier.write_token("/", None, &i.tag_location.close)?;
             stringifier.write_token(">", None, &i.tag_location.start.1)?;
         }
@@ -86,7 +99,7 @@ impl Stringify for Template {
                     stringifier.write_str(r#" "#)?;
                     stringifier.write_token("src", None, src_location)?;
                     stringifier.write_str(r#"="#)?;
-                    stringifier.write_str_name_quoted(src)?;
+                    stringifier.write_str_name_quoted(&src_with_suffix_kept(src, ".wxs"))?;
                     stringifier.write_token("/", None, &tag_location.close)?;
                     stringifier.write_token(">", None, &tag_location.start.1)?;
                 }
@@ -655,7 +668,12 @@ impl Stringify for Element {
             }
             ElementKind::Include { path } => {
                 stringifier.write_str("include")?;
-                write_named_static_attr(stringifier, "src", &path.0, &path.1)?;
+                write_named_static_attr(
+                    stringifier,
+                    "src",
+                    &path.0,
+                    &src_with_suffix_kept(&path.1, ".wxml"),
+                )?;
             }
             ElementKind::Slot {
                 name,
